@@ -528,6 +528,26 @@ def pool_inventory(ctx, report, rule, facts, config, crossing_only=False):
             continue    # asking rayon something (current_num_threads, current_thread_index) moves no work anywhere
         ow = owners(b, frozenset())
         ok = bool(ow) and None not in ow
+        if not ok and c.name == "install":
+            # `install` runs its closure once, on the pool, and returns when it is done: it adds no concurrency of its own.
+            # Outside the audited entry points it is fine where, on every way through the function, nothing else crosses to
+            # a pool (the audited entry points it may call are looked at by their own rows) and the pool is the
+            # dispatcher's own.
+            r = root(b)
+            why = None
+            try:
+                ev, ends = Q.sem(ctx, facts, r, opaque=list(ekeys))
+                for e in ends:
+                    for kind, site, pool, in_loop in _crossings(ev, e.path.events, []):
+                        if kind != "install":
+                            why = "it also crosses to a pool through `%s`" % kind
+                        elif pool is None or not any(o[0] == "field" and o[2] == "thread_pool" for o in Q.origins(ev, pool)):
+                            why = "the pool it installs on does not come from a `thread_pool` field"
+            except Exception as ex:
+                why = "not evaluated (%s)" % ex
+            if why is None:
+                report.ob(rule, "rayon/%s/%s" % (r.qname, c.name), True, "an `install` on the dispatcher's own pool around code that crosses to no pool by itself", site=b.loc(bb), config=config)
+                continue
         if not ok:
             report.ob(rule, "rayon/%s/%s" % (root(b).qname, c.name), False,
                       "rayon `%s` is called in %s, which is reachable without going through an audited pool entry point" % (c.name, b.qname), site=b.loc(bb), config=config)
@@ -552,6 +572,72 @@ def pool_inventory(ctx, report, rule, facts, config, crossing_only=False):
             if got != want:
                 pr.append("a way through crosses to the pool as %s (audited: %s)" % (sorted(got.items()), sorted(want.items())))
         report.ob(rule, "rayon/%s" % b.qname, not pr, "every way through: %s" % sorted(want.items()) if not pr else "; ".join(sorted(set(pr))), site=b.loc(), config=config)
+
+
+# ------------------------------------------------------------------ ENCAPSULATION
+
+# whose state the rules of a property take the crate's own code for the only writer of
+STATE_OF = {
+    "C01": [A.SB, A.DB, A.STAGE, A.SD, A.DISP], "C02": [A.SB, A.DB, A.STAGE, A.SD], "C03": [A.SB, A.DB, A.STAGE, A.SD, A.DISP],
+    "C04": [A.SB, A.DB, A.STAGE, A.SD, A.DISP, A.BCS, A.MD], "C05": [A.SB, A.DB, A.STAGE, A.SD, A.DISP],
+    "C06": [A.READ, A.WRITE, A.FETCH, A.FETCHMUT], "C07": [A.BCS, A.BACC, A.SB, A.DB],
+    "C08": [A.WORLD, A.FETCH, A.FETCHMUT, A.READ, A.WRITE, A.ENTRY], "C09": [A.WORLD, A.RESID, A.ENTRY, A.FETCH, A.FETCHMUT],
+    "C10": [A.SB, A.DB, A.STAGE], "C11": [A.SD, A.DISP, A.DB, A.STAGE, A.AD], "C12": [A.DISP, A.DB, A.AD, A.SD],
+    "C13": [A.DISP, A.SD, A.STAGE, A.BCS, A.AD], "C14": [A.DISP, A.SD, A.STAGE, A.BCS, A.FETCH, A.FETCHMUT],
+    "C15": [A.AD, A.AD_DATA, A.AD_INNER], "C16": [A.PAR, A.SEQ, A.PARSEQ], "C17": [A.METATABLE, A.METAITER, A.METAITERMUT],
+    "C18": [A.DB, A.SB], "C19": [A.DB, A.SB, A.RESID, A.SYSID], "C20": [A.DB, A.SB, A.SYSID],
+}
+
+
+def encapsulated(ctx, report, rule, facts, config, prop):
+    """Every rule here reasons about the crate's own code as the only thing that reads or writes the state it is about.  That
+    holds only while no field of that state can be named by a user of the crate (a field a user can reach - public itself, in a
+    type that is, through whatever re-export - can be assigned, moved out, reordered or rebuilt with a struct literal in safe code)."""
+    n = 0
+    parallel = ctx.parallel(config)
+    for path in STATE_OF[prop]:
+        adt = facts.adts.get(path)
+        if adt is None:
+            if not parallel and path in (A.AD, A.AD_DATA, A.AD_INNER, A.PAR, A.SEQ, A.PARSEQ):
+                continue
+            report.ob(rule, "ANCHOR/%s" % path, False, "type %s not found" % path, config=config)
+            continue
+        for v in adt["variants"]:
+            for f in v["fields"]:
+                n += 1
+                exposed = bool(f.get("exported")) if "exported" in f else bool(f.get("pub") and adt.get("pub"))
+                if exposed:
+                    report.ob(rule, "exposed/%s.%s" % (path.rsplit("::", 1)[-1], f["name"]), False,
+                              "field `%s` of %s (%s) can be named outside the crate: users can read, replace or rearrange what the rules of this property take the crate's own code for the only writer of" % (
+                                  f["name"], path, f["ty"][:60]), site="%s:%d" % (adt["span"]["file"], adt["span"]["line"]), config=config)
+    report.ob(rule, "fields-private", True, "%d field(s) of the types this property's state lives in looked at" % n, config=config)
+    report.floor(rule, "fields of the state types", n, 2, config=config)
+    # the same through functions: nothing a user can call hands out exclusive access to a value of a state type (an
+    # `IndexMut` / `DerefMut` / `as_mut` onto a part of a dispatcher is a public field by another name), and the lock around
+    # the pool slot stays the crate's own
+    import re
+    m = 0
+    slot_props = ("C11", "C14")
+    for b in sorted(facts.bodies.values(), key=lambda b: b.key):
+        if b.is_closure or not b.api:
+            continue
+        m += 1
+        ret = b.locals[0]["ty"] if b.locals else ""
+        if "&mut " in ret or "&'" in ret and " mut " in ret:
+            for path in STATE_OF[prop]:
+                if re.search(re.escape(path) + r"($|[<>,\s\)\]])", ret):
+                    report.ob(rule, "handed-out/%s" % b.qname, False,
+                              "%s returns `%s`: exclusive access to a %s for whoever calls it - they can replace, take or rearrange what the rules of this property take the crate's own code for the only writer of" % (
+                                  b.qname, ret[:80], path.rsplit("::", 1)[-1]), site=b.loc(), config=config)
+                    break
+        if prop in slot_props:
+            tys = [l["ty"] for l in b.locals[:1 + b.raw.get("arg_count", 0)]]
+            if any("RwLock<" in t and "ThreadPool" in t for t in tys):
+                report.ob(rule, "slot-shared/%s" % b.qname, False,
+                          "%s takes or returns the lock around the pool slot: whoever holds a clone can take the write lock (or panic holding it) while a dispatch reads it" % b.qname,
+                          site=b.loc(), config=config)
+    report.ob(rule, "nothing-handed-out", True, "%d function(s) a user can call looked at" % m, config=config)
+    report.floor(rule, "functions a user can call", m, 50, config=config)
 
 
 # ------------------------------------------------------------------ BUILD wiring
